@@ -10,10 +10,11 @@ PID = "C06"
 BOUNDS = ("lists of 0-3 files; data lengths {0,1,2,254,255,256,257,509,510,511,765} (+ 4096, 65535 thorough); EVERY data "
           "byte symbolic for lengths <= 16 (quick) / <= 257 (selected and thorough), otherwise the bytes at block "
           "boundaries / first / last symbolic and a distinct concrete filler elsewhere; load and entry addresses symbolic "
-          "16 bit; file type symbolic 0-3, data type symbolic {$00,$FF}; names enumerated (length 0-12, both cases). "
+          "16 bit; file type symbolic 0-3, data type symbolic {$00,$FF}; names enumerated (length 0-12, both cases) plus names with ONE SYMBOLIC character over all of $21..$7E at "
+          "position 0, 4, 7, 8 (beyond the 8 stored) and in a 2-character name. "
           "Second sentence: streams produced by the independent writer (vlib/oracle_cas.write) with enumerated leader "
           "lengths {1,2,127,128,300} and optional inter-block gaps, symbolic content, listed by the tool")
-OUTSIDE = "more than 3 files per image; names with spaces / non-ASCII; leader lengths are enumerated, not symbolic"
+OUTSIDE = "more than 3 files per image; names with spaces / non-ASCII; more than one symbolic name character at a time; leader lengths are enumerated, not symbolic"
 ASSUMPTIONS = ["M7: copy.deepcopy of the container's original_buffer replaced by a shallow copy (never read; re-checked by scan)"]
 
 LENGTHS = [0, 1, 2, 254, 255, 256, 257, 509, 510, 511, 765]
@@ -43,7 +44,7 @@ def make(sid, specs, allsym=16, timeout=240, full=0):
         ok = got is not None and F.same_list(got, descs)
         if ok:
             return True, info
-        env = {"n": len(specs), "lengths": [s.length for s in specs], "names": [s.name for s in specs],
+        env = {"n": len(specs), "lengths": [s.length for s in specs], "names": [getattr(s.name, "label", s.name) for s in specs],
                "listed": len(got) if got is not None else -1, "empty_index": ([s.length for s in specs] + [0]).index(0),
                "kind": None, "stage": None}
         return ctx.known(PID, {"part": "roundtrip"}, env), info
@@ -134,6 +135,9 @@ def obligations(tier, seed):
         obs.append(make("one:%d" % L, [S("PROG", L, "sym")], timeout=400 if L > 1000 else 240))
     for nm in NAMES:
         obs.append(make("name:%r" % nm, [S(nm, 3, "ml")]))
+    for pos in (0, 4, 7, 8):
+        obs.append(make("symname:%d" % pos, [S(F.SymName("ABCDEFGHIJ", pos), 3, "ml")], timeout=400))
+    obs.append(make("symname:short", [S(F.SymName("AB", 1), 2, "basic")], timeout=400))
     obs.append(make("allsym:257", [S("BIG", 257, "sym", allsym=257)], timeout=400))
     obs.append(make("allsym:255", [S("BIG", 255, "ml", allsym=255)], timeout=400))
     obs.append(make("two:3+255", [S("ONE", 3, "sym"), S("TWO", 255, "ml")]))
